@@ -61,7 +61,7 @@ var (
 	maxU64b = new(big.Int).Sub(pow2(64), bigOne)
 )
 
-func init() {
+func initKinds() {
 	add := func(name string, class int, plain, named interface{}) {
 		t := &tkind{name: name, class: class, plain: reflect.TypeOf(plain)}
 		if named != nil {
@@ -193,7 +193,7 @@ type expectation struct {
 	ints      []*big.Int
 	flts      []float64
 	str       *string
-	fstr      *float64   // string target from a float: must parse back to this float
+	fstr      *float64 // string target from a float: must parse back to this float
 	b         *bool
 	real      *big.Float // Duration from float seconds: exact real nanoseconds
 	realTol   bool       // accept |stored-real| < 1ns
@@ -340,7 +340,7 @@ func expectNum(n num, t *tkind) expectation {
 	return expectation{mode: mUnpinned}
 }
 
-func isRange(err error) bool  { return err != nil && errors.Is(err, strconv.ErrRange) }
+func isRange(err error) bool { return err != nil && errors.Is(err, strconv.ErrRange) }
 func relax(e expectation) expectation {
 	if e.mode == mExact {
 		e.mode = mEither
